@@ -21,7 +21,7 @@ META = {
         'R6: the skip test dominates every write of a lexicon. R10: _update_lookup_tables registers, unconditionally and '
         'unfiltered, the relation types of all synset relations (external synsets included) and all sense relations of the '
         'lexicon being added, so no later sub-select depends on lookup rows left by other lexicons. R11: no INSERT of the '
-        'importer uses REPLACE conflict handling, and OR IGNORE only on the shared lookup tables. R12 a content table without an owner column receives rows only from local elements or through a parent keyed by the lexicon being added (known findings: tags, pronunciations). R13 lexicon look-ups by id also constrain the version. R14 the importer never modifies its input (C07-R3 on _add). R15 remove() deletes what the specifier means: the limit / order / match analysis of find_lexicons (C08-R2, C08-R3). R13 also: find_lexicons calls of the importer pass id and version. R16 the skip decision of _precheck depends on look-ups in `lexicons` only.'),
+        'importer uses REPLACE conflict handling, and OR IGNORE only on the shared lookup tables. R12 a content table without an owner column receives rows only from local elements or through a parent keyed by the lexicon being added (known findings: tags, pronunciations). R13 lexicon look-ups by id also constrain the version. R14 the importer never modifies its input (C07-R3 on _add). R15 remove() deletes what the specifier means: the limit / order / match analysis of find_lexicons (C08-R2, C08-R3). R13 also: find_lexicons calls of the importer pass id and version. R16 the skip decision of _precheck depends on look-ups in `lexicons` only. R17 the SQLite progress callback of remove() returns nothing (C06-R9).'),
     'decides': ['cascade closure', 'FK enforcement per connection', 'single writer', 'remove shape', 'dependency relink',
                 'skip dominance', 'no state outside the database', 'lookup tables complete for the lexicon being added'],
     'not_decided': ['equality of database images across histories', 'rowid reuse effects'],
